@@ -706,6 +706,43 @@ namespace
           L l = g.lra_expr();
           if (!l.c.empty()) g.lra_vars.push_back(n.new_lra_derived(l));
         }
+        if (o.get("setb", "") == "1" && !g.lra_vars.empty())
+        { // option of the newer runs (older tapes do not carry it): more derived variables with constants, and bounds set
+          // directly through the public set_lb / set_ub (the executor's way of talking to the theory), at root level with the
+          // reason TRUE and only with values the model allows - so the call and the following propagation must succeed and
+          // the bound becomes part of the model. A bound on a derived variable makes a row WITH A CONSTANT leave the basis.
+          if (t.flip() && g.lra_vars.size() < 8)
+          {
+            L l = g.lra_expr();
+            if (!l.c.empty()) g.lra_vars.push_back(n.new_lra_derived(l));
+          }
+          int k = t.range(0, 2);
+          for (int i = 0; i < k && !n.dead && !r.violation; ++i)
+          {
+            n.settle();
+            if (n.dead) break;
+            size_t v = g.lra_vars[t.pick(g.lra_vars.size())];
+            bool lower = t.flip();
+            mpq_class val = g.konst();
+            z3::expr c = lower ? n.zlra.at(v) >= n.zq(val) : n.zlra.at(v) <= n.zq(val);
+            if (n.zcheck({c}) != z3::sat) continue;
+            record_creation_bounds(n, lref);
+            n.add_phi(c); // before the call: the theory may record lemmas that follow from the new bound while it is being set
+            n.log << "  set_" << (lower ? "lb" : "ub") << "(x" << v << ", " << val.get_str() << ", T)\n";
+            bool ok = lower ? n.lra.set_lb(v, inf_rational(toR(val)), TRUE_lit) : n.lra.set_ub(v, inf_rational(toR(val)), TRUE_lit);
+            n.log << "    -> " << (ok ? "true" : "false") << "\n";
+            r.classes.insert("bound set directly (set_lb / set_ub)");
+            if (v < lref.creation.size())
+            {
+              E b{Q(val)};
+              if (lower && qx::cmp(b, lref.creation[v].first) > 0) lref.creation[v].first = b;
+              if (!lower && qx::cmp(b, lref.creation[v].second) < 0) lref.creation[v].second = b;
+            }
+            if (!ok) { n.violation(std::string("set_") + (lower ? "lb" : "ub") + " returned false at root level although the constraints allow the bound"); break; }
+            n.dirty = true;
+            n.settle();
+          }
+        }
       }
       if (use_idl)
       {
@@ -921,7 +958,7 @@ namespace
     // root-level pre-assignments
     std::vector<z3::expr> pre;
     std::vector<lit> pre_lits_early;
-    bool root_decided = false, big = false, cache_hit = false, nested = false;
+    bool root_decided = false, big = false, cache_hit = false, nested = false, sibling = false;
     int npre = t.chance(1, 2) ? t.range(0, 3) : 0;
     for (int i = 0; i < npre; ++i)
     {
@@ -978,6 +1015,10 @@ namespace
         kind = b.kind;
         args = b.args;
         if (t.flip()) std::reverse(args.begin(), args.end());
+        // the expression cache is shared by all constructs: the same argument list under the sibling construct (conj <-> disj,
+        // at-most-one <-> exactly-one) must not be answered from the other one's entry (option set by the newer runs only, so
+        // that tapes recorded before keep decoding to the same case)
+        if (o.get("xkind", "") == "1" && kind >= 1 && t.flip()) { kind = kind == 1 ? 2 : kind == 2 ? 1 : kind == 3 ? 4 : 3; sibling = true; }
       }
       else
         for (int i = 0; i < len; ++i)
